@@ -126,6 +126,21 @@ def one(acc, seq, bo, wo):
                               'registers after reset() + refill are not those of the new values', tag)
         except Exception as e:   # noqa
             acc.violation('C19/%s/%s/image/after-reset-raise:%s' % (seq[0][0], tag, type(e).__name__), wit, repr(e)[:100], tag)
+    # serialising in the middle (build / to_registers of what is there so far) and then adding more values gives the
+    # same image as packing everything in one go
+    if len(seq) >= 2:
+        try:
+            b2 = BinaryPayloadBuilder(byteorder=ORD[bo], wordorder=ORD[wo])
+            t0, v0 = seq[0]
+            getattr(b2, ADD[t0])(list(v0) if t0 == 'bits' else v0)
+            b2.build(); b2.to_registers(); b2.to_string()
+            for t, v in seq[1:]:
+                getattr(b2, ADD[t])(list(v) if t == 'bits' else v)
+            if b2.to_string() != raw:
+                acc.violation('C19/%s/%s/image/after-intermediate-build' % (seq[0][0], tag), dict(wit, intermediate=True),
+                              'image %s after build() in the middle, %s when packed in one go' % (b2.to_string().hex(), raw.hex()), tag)
+        except Exception as e:   # noqa
+            acc.violation('C19/%s/%s/image/after-intermediate-build-raise:%s' % (seq[0][0], tag, type(e).__name__), dict(wit, intermediate=True), repr(e)[:100], tag)
     if raw != exp:
         # attribute to the first item whose slice differs
         pos, typ = 0, seq[-1][0]
